@@ -128,6 +128,25 @@ func (g *Gen) visibleGroupings(s *Scope) []string {
 			}
 		}
 	}
+	if f.Sub && f.Owner != nil {
+		// what the module the submodule belongs to, and its other submodules, define
+		own := append([]*Grouping{}, f.Owner.Body.Groupings...)
+		subs = nil
+		subsTransitive(f.Owner, map[*Mod]bool{}, &subs)
+		for _, sm := range subs {
+			own = append(own, sm.Body.Groupings...)
+		}
+		for _, gr := range own {
+			if !seenName[gr.Name] {
+				seenName[gr.Name] = true
+				q := gr.Name
+				if g.pick(3) == 0 {
+					q = f.Prefix + ":" + gr.Name
+				}
+				out = append(out, q)
+			}
+		}
+	}
 	for _, im := range f.Imports {
 		for _, gr := range im.Mod.Body.Groupings {
 			out = append(out, im.Prefix+":"+gr.Name)
@@ -177,6 +196,22 @@ func (g *Gen) visibleTypedefs(s *Scope) []string {
 			if !seen[td.Name] {
 				seen[td.Name] = true
 				out = append(out, td.Name)
+			}
+		}
+	}
+	if f.Sub && f.Owner != nil {
+		own := append([]*Typedef{}, f.Owner.Body.Typedefs...)
+		for _, sm := range f.Owner.Includes {
+			own = append(own, sm.Body.Typedefs...)
+		}
+		for _, td := range own {
+			if !seen[td.Name] {
+				seen[td.Name] = true
+				q := td.Name
+				if g.pick(3) == 0 {
+					q = f.Prefix + ":" + q
+				}
+				out = append(out, q)
 			}
 		}
 	}
